@@ -274,7 +274,10 @@ def run(tier: str, seed: int) -> int:
     rejects = [c for c in cases if c['ref'] != 'ok']
     accepts = [c for c in cases if c['ref'] == 'ok']
     if tier == 'quick':
-        picked, strata = fx.stratified_sample(accepts, _stratum, 1, seed)
+        os_, strata = fx.stratified_sample([c for c in accepts if c['method'] == 'overlap_save'], _stratum, 2, seed)
+        pure, strata2 = fx.stratified_sample([c for c in accepts if c['method'] != 'overlap_save'], _stratum, 1, seed)
+        picked = os_ + pure
+        strata.update(strata2)
         picked += rejects
         sampled = True
     else:
@@ -322,7 +325,8 @@ def run(tier: str, seed: int) -> int:
         lambda c: c['K'] >= 2 and c['n'] >= 2 and c['method'] in ('dense', 'direct', 'fft', 'overlap_save'))
     spec_dtype_defects = sum(1 for c in accepts for v in c['dt'].values() if v == 'TypeError')
     spec_ctor_overreject = sum(1 for c in accepts if c['impl'] != 'ok')
-    sample = next(c for c in picked if c['ref'] == 'ok' and c['method'] == 'overlap_save' and c['nblock'] >= 2)
+    osc = [c for c in picked if c['ref'] == 'ok' and c['method'] == 'overlap_save']
+    sample = max(osc, key=lambda c: (c['impl'] == 'ok', min(c['nblock'], 3), min(c['n'], 4), min(c['K'], 3), -len(c['xs'])))
     fx.write_evidence(PROP, tier, seed, {
         'states': gen.distinct, 'transitions': gen.generated,
         'traces_validated_against_impl': accepted,
@@ -330,7 +334,8 @@ def run(tier: str, seed: int) -> int:
         'rule': 'cases = every configuration (n, K, method, fft_size incl. default, input batch, band batch) of the '
                 'bound, enumerated and checked by TLC, plus the configurations the constructor must reject; each '
                 'replayed case is executed once per (dtype, 64-bit mode) = evaluations; replayed = all (thorough) or '
-                'one per stratum method x batch shapes x K x fft class x (K>n) (quick) + every rejection case; '
+                'per stratum method x batch shapes x K x fft class x (K>n): two for overlap_save, one for the other methods '
+                '(quick) + every rejection case; '
                 'non-trivial = accepted configuration with n >= 2 and K >= 2, distinct by configuration',
         'exhaustive': not sampled,
         'bounds': BOUNDS[tier], 'emitted_cases': emitted, 'replayed_cases': len(replayed_ids),
